@@ -801,7 +801,9 @@ def check_c19(col, pp, cfg, prog):
 
 def run_c19(col, pp):
     prof = {'max_steps': 8, 'max_dim': 3, 'keep_failing': False, 'dilute_new_name': False,
-            'weights': {'fill_to': 8, 'dilute': 6, 'transfer': 8, 'remove': 1}}
+            'weights': {'fill_to': 8, 'dilute': 6, 'transfer': 8, 'remove': 1},
+            # wells from 50 uL to 25 mL so that the per-well plate text is exercised in uL and in mL
+            'plate_caps': ['50 uL', '0.2 mL', '2 mL', '1e4 uL', '25 mL', '5 mL']}
     _run_programs(col, pp, check_c19, 100, 1500, prof, 'recipe')
 
 
